@@ -815,9 +815,9 @@ func checkDispatchExclusive(p *core.Program, r *core.Report) {
 				return false
 			}
 			a, b := core.Strip(core.Arg(d, 0)), core.Strip(core.Arg(reserve, 0))
-			return a == b || core.SameLoad(a, b)
+			return core.SameExpr(a, b)
 		})
-		r.Check(free && released, key+"only-when-free/"+name, "the algorithm is consulted and the bundle moved on only when its ID was not reserved by another dispatching, and the reservation is released by a defer registered before", p.Pos(c.Pos()), "", fmt.Sprintf("dominated by the not-taken outcome of the reservation: %v; deferred release registered before: %v", free, released))
+		r.Check(free && released, key+"only-when-free/"+name, "the algorithm is consulted and the bundle moved on only when its ID was not reserved by another dispatching, and the reservation is released by a defer registered before", p.Pos(c.Pos()), "", fmt.Sprintf("dominated by the not-taken outcome of the reservation: %v; deferred release of the very key that was reserved registered before: %v", free, released))
 	})
 	r.Count("guarded steps of dispatching", n)
 	r.Min("guarded steps of dispatching", 3)
